@@ -240,6 +240,68 @@ QUERIES = [
           outside=["formula shapes outside the 6 call spellings x def/default"]),
 ]
 
+import collections as _collections
+PolicyKey = _collections.namedtuple("PolicyKey", "a b")
+TK_SPELL = ["c(k)", "c[k]", "c(key=k)", "c.__getitem__(k) after `k in c`", "c[k] = w then c(k)"]
+
+
+@harness
+def tuplekey(v: int, w: int, a: int, b: int, s1: int, s2: int, two: bool) -> bool:
+    """ONE argument that is an instance of a tuple subclass (a namedtuple used as a composite key): subscription must wrap
+    it as a single argument exactly like the call does - same element, one run."""
+    a, b, s1, s2, two = pick(a, 0, 1), pick(b, 0, 1), pick(s1, 0, 4), pick(s2, 0, 3), pickb(two)
+    with notrace():
+        m = new_model("TK")
+        S = m.new_space("S")
+        m.hit = hit
+        S.v = 0
+        if two:
+            S.new_cells("pk", formula="def pk(key, loading=0):\n    hit(key.a, key.b)\n    return v * key.a + key.b + loading\n")
+        else:
+            S.new_cells("pk", formula="def pk(key):\n    hit(key.a, key.b)\n    return v * key.a + key.b\n")
+        S.v = v
+        k = PolicyKey(a, b)
+    c = S.cells["pk"]
+    exp = v * a + b
+    assigned = False
+    for i, sp in enumerate((s1, s2)):
+        label("%s%s" % (TK_SPELL[sp], " (cells with a second, defaulted parameter)" if two else ""))
+        if sp == 0:
+            r = call(c, k)
+        elif sp == 1:
+            r = call(c.__getitem__, k)
+        elif sp == 2:
+            r = call(c, key=k)
+        elif sp == 3:
+            inside = call(c.__contains__, k)
+            if not check(inside[0] == "ok" and inside[1] == (i == 1), "`k in c` tells whether the element holds a value", lambda: inside):
+                return False
+            r = call(c.__getitem__, k)
+        else:
+            st = call(c.__setitem__, k, w)
+            if not check(st[0] == "ok", "assigning through the composite key", lambda: st):
+                return False
+            assigned = True
+            r = call(c, k)
+        want = w if assigned else exp
+        if not check(r[0] == "ok" and r[1] == want, "value of the element of the composite key", lambda: (r, want)):
+            return False
+        with notrace():
+            runs = list(ctx.hits)
+            held = len(c)
+        if not check(runs == ([] if assigned else [(a, b)]), "formula runs for one composite key (at most once, never after an assignment)", lambda: runs):
+            return False
+        if not check(held == 1, "exactly one element exists for the one key", lambda: held):
+            return False
+    return True
+
+
+QUERIES.append(
+    Query("tuplekey", tuplekey, pre=["0 <= a <= 1", "0 <= b <= 1", "0 <= s1 < 5", "0 <= s2 < 4"],
+          partitions=lambda tier, seed: [dict(s1=s_, two=t_) for s_ in range(5) for t_ in (False, True)],
+          natives=[dict(v=7, w=99, a=1, b=0, s1=s_, s2=s2_, two=t_) for (s_, s2_, t_) in ((0, 1, False), (1, 0, True), (0, 1, True), (2, 3, False), (4, 1, True), (3, 2, False))],
+          bounds=lambda tier: {"key": "namedtuple PolicyKey(a, b), a, b in {0,1}", "spellings": TK_SPELL, "cells": ["pk(key)", "pk(key, loading=0)"], "values": "v, assigned w: unbounded symbolic ints"},
+          outside=["other tuple subclasses", "composite keys on ItemSpaces"]))
 BUDGET = {"quick": 400, "thorough": 1200}
 
 
